@@ -101,6 +101,10 @@ def frame_inputs(tier, rng):
             yield hdr
             yield hdr + b"x" * 10
         yield bytes([0x80 | op, 126]) + b"\xff\xff" + b"y" * 100
+    # text that is legal as a whole but cut inside a character between fragments, and ill-formed text, single and fragmented
+    for fr in (b"\x01\x04caf\xc3\x80\x01\xa9", b"\x01\x02\xe2\x82\x00\x01\xac\x80\x00", b"\x81\x02\xff\xfe", b"\x01\x01\xf0\x00\x01\x9f\x89\x00\x80\x02\x98\x80",
+               b"\x01\x01a\x80\x02\xc3\x28", b"\x01\x02\xed\xa0\x80\x01\x80", b"\x81\x03\xe2\x82\xac\x01\x01\xc3\x89\x04\x01\x02\x03\x04\x80\x01\xa9"):
+        yield fr
     for _ in range(300 if tier == "quick" else 50000):
         frames = legal_stream(rng, lens=(0, 1, 5, 126))
         s = bytearray(encode_frames(frames, rng, mask_some=True))
@@ -247,12 +251,14 @@ def run(ctx):
             if tail == "eof" and any(x >= 0x80 for x in b[2:]):
                 # validation off and the message-level call: nothing may leak from the decoding of text either
                 fscs.append(({"fire": 0, "skip": 1, "script": script, "keys": KEYS, "ops": ["rv"] * 6}, b, tail))
+                # fragments delivered one by one (fire_cont_frame): a fragment is not validated on its own and may end inside a character
+                fscs.append(({"fire": 1, "skip": 0, "script": script, "keys": KEYS, "ops": ["rv"] * 6}, b, tail))
     fmodel = ctx.model.run_parallel([wsrun.scenario_line(s[0]) for s in fscs]) if ctx.model else [None] * len(fscs)
     for (sc, b, tail), mo in zip(fscs, fmodel):
         line, s = wsrun.run_impl(sc)
         results = line.split(";")[0].split("|")
         T.case(("fr", b, tail), nontrivial=len(b) > 2, bucket="frames", sample={"bytes": b[:24].hex(), "then": tail, "results": results[:3]})
-        pub = {"phase": "frames", "bytes": b.hex(), "then": tail, "skip": sc["skip"], "ops": sc["ops"], "trace": sc.get("trace", 0)}
+        pub = {"phase": "frames", "bytes": b.hex(), "then": tail, "skip": sc["skip"], "fire": sc["fire"], "ops": sc["ops"], "trace": sc.get("trace", 0)}
         for r in results:
             if r.startswith("raise:") and not documented(r[6:]):
                 T.fail("spec", pub, "a documented exception", r, {"site": "recv", "cls": "internal-exception", "exn": r[6:]},
@@ -278,7 +284,7 @@ def run(ctx):
         "handshake phase: exhaustive 1-2 byte prefixes over 10 special bytes, 28 crafted malformed heads (missing/non-numeric "
         "status, bad UTF-8, missing colon, redirects without/with bad Location, bad/huge/negative Content-Length, odd Set-Cookie, "
         "70000-byte line), every truncation and single-byte corruption of a valid response, random multi-mutations and random "
-        "bytes, each followed by end of stream or silence; frame phase: all 1-byte and a fifth of all 2-byte prefixes, declared "
+        "bytes, each followed by end of stream or silence; frame phase (frame-level calls, and recv() with validation off and in per-fragment mode on inputs with high bytes): all 1-byte and a fifth of all 2-byte prefixes, crafted text cut inside characters, declared "
         "lengths up to 2^64-1 followed by EOF/data, mutated legal streams, random bytes, then EOF or silence; 8 receive calls "
         "each. Judged: only documented exceptions, reads <= 16384, every call returns; compared with the extracted model",
         what_is_proved="see Properties/C17.v")
@@ -303,6 +309,6 @@ def replay(ctx, sc):
         res = line.split(";")[0]
         return None if not (res.startswith("raise:") and not documented(res[6:])) else {"result": res}
     script = [["D", b.hex()]] + ([["T"], ["T"]] if sc["then"] == "silence" else [])
-    line, s = wsrun.run_impl({"fire": 0, "skip": sc.get("skip", 0), "script": script, "keys": KEYS, "ops": sc.get("ops") or ["rd1"] * 6 + ["rv"] * 2, "trace": sc.get("trace", 0)})
+    line, s = wsrun.run_impl({"fire": sc.get("fire", 0), "skip": sc.get("skip", 0), "script": script, "keys": KEYS, "ops": sc.get("ops") or ["rd1"] * 6 + ["rv"] * 2, "trace": sc.get("trace", 0)})
     bad = [r for r in line.split(";")[0].split("|") if r.startswith("raise:") and not documented(r[6:])]
     return {"results": bad} if bad else None
